@@ -77,6 +77,7 @@ type c17cfg struct {
 	inflight []string
 	to       int
 	slowOld  bool // the deployed target answers its probes slower than the probe interval
+	flapOld  string // "down" | "up": the deployed target's probe result changes its state at the very tick at which the command starts
 }
 
 func (c c17cfg) String() string {
@@ -157,6 +158,15 @@ func c17Configs(tier string) []c17cfg {
 	for _, x := range [][2]string{{"remove", "active"}, {"deploy", "active"}, {"pause", "active"}, {"list", "active"}} {
 		cfgs = append(cfgs, c17cfg{cmd: x[0], pre: x[1], scripts: []pscript{ok}, to: 2, slowOld: true})
 	}
+	// a state-changing probe result of the deployed target is being delivered while the command disposes of it
+	for _, x := range [][2]string{{"remove", "active"}, {"deploy", "active"}, {"deploy-conflict", "active"}, {"rollout", "rollout"}, {"pause", "active"}} {
+		for _, f := range []string{"down", "up"} {
+			if tier == "quick" && f == "up" && x[0] != "remove" {
+				continue
+			}
+			cfgs = append(cfgs, c17cfg{cmd: x[0], pre: x[1], scripts: []pscript{ok}, to: 0, flapOld: f})
+		}
+	}
 	cfgs = append(cfgs, c17cfg{cmd: "deploy", pre: "absent", scripts: []pscript{neverSlow}, to: 2})
 	cfgs = append(cfgs, c17cfg{cmd: "deploy", pre: "active", scripts: []pscript{ok, neverSlow}, to: 2})
 	cfgs = append(cfgs, c17cfg{cmd: "rollout", pre: "active", scripts: []pscript{slowS, neverSlow}, to: 2})
@@ -165,6 +175,9 @@ func c17Configs(tier string) []c17cfg {
 
 func c17Scenario(c c17cfg) *Scenario {
 	sc := &Scenario{Name: "C17 " + c.String(), Horizon: 90 * time.Second}
+	if c.flapOld != "" {
+		sc.Bounds = &Bounds{D: 2, S: 0}
+	}
 	to := c17Timeouts[c.to]
 	const host = "a.example.com"
 	var newNames []string
@@ -195,12 +208,21 @@ func c17Scenario(c c17cfg) *Scenario {
 		for i, s := range c.scripts {
 			w.AddTarget(newNames[i], s.steps...)
 		}
+		t0 := w.Now()
 		if c.slowOld {
 			w.AddTarget("oa:80", pOK(), pSlow())
+		} else if c.flapOld == "down" {
+			w.AddTarget("oa:80", pOK(), pOK(), pRefuse(), pOK())
+			w.AddTarget("ra:80", pOK(), pOK(), pRefuse(), pOK())
+		} else if c.flapOld == "up" {
+			w.AddTarget("oa:80", pOK(), pRefuse(), pOK())
+			w.AddTarget("ra:80", pOK(), pRefuse(), pOK())
 		} else {
 			w.AddTarget("oa:80")
 		}
-		w.AddTarget("ra:80")
+		if c.flapOld == "" {
+			w.AddTarget("ra:80")
+		}
 		w.AddTarget("xa:80")
 		if c.pre != "absent" {
 			if r := w.Deploy(args("s1", []string{"oa:80"}, []string{host})); r.Err != nil {
@@ -276,6 +298,10 @@ func c17Scenario(c c17cfg) *Scenario {
 			}
 		}
 		w.S.SetWindow(true)
+		if c.flapOld != "" {
+			// start the command at the very instant of the deployed targets' third probe (whose result flips their state)
+			time.Sleep(t0 + 2*to.I - w.Now())
+		}
 		var cwg vsync.WaitGroup
 		cwg.Add(1)
 		vsched.GoTagged("cmd", func() {
